@@ -8,7 +8,7 @@ ID = 'C02'
 LEVEL = 'exploration'
 RULE = ('every string <=L over a 41-symbol alphabet (breaks, BOM, NEL/LS/PS, controls, astral, all indicators), every type '
         'look-alike found by an independent YAML 1.1 recogniser, folding words (<=N pieces over 8 space/break pieces), '
-        'simple-key threshold lengths (raw 127-129 / 1023-1025 and keys whose escaped form crosses 1024), every container shape <=4 nodes over a leaf pool, sharing/recursion patterns, all '
+        'every microsecond value of a datetime, simple-key threshold lengths (raw 127-129 / 1023-1025 and keys whose escaped form crosses 1024), every container shape <=4 nodes over a leaf pool, sharing/recursion patterns, all '
         'leaves; each dumped with every option set within the deviation bound (and the full style x width x indent x '
         'allow_unicode product for strings) by SafeDumper and CSafeDumper and loaded by SafeLoader and CSafeLoader '
         '(4 pairings), compared by type-strict graph bisimulation incl. sharing partition. non-trivial = the value is not a '
@@ -119,6 +119,7 @@ def plan(tier, seed):
     jobs += [('fold', 4 if q else 6, k, 64) for k in range(64)]
     jobs += [('thr', k) for k in range(12)]
     jobs += [('esckey', k, 8) for k in range(8)]
+    jobs += [('usec', k, 64) for k in range(64)]
     jobs += [('cont', k, 32, 1 if q else 2) for k in range(32)]
     jobs += [('leaves', k, 8, 1 if q else 2) for k in range(8)]
     return jobs
@@ -200,6 +201,35 @@ def run_job(job, T):
             roundtrip(T, 'thresholds', 'str', {s: s}, o, {'string': s, 'place': 'key'})
             roundtrip(T, 'thresholds', 'str', [{s: [s]}, {s}], o, {'string': s, 'place': 'nested-key'})
         T.sample('thresholds', {'len': len(s)})
+    elif kind == 'usec':
+        # every microsecond value of a datetime (10^6, in 64 blocks), naive and with a UTC offset, as items of one list
+        import datetime as D
+        _, k, nb = job
+        per = 1000000 // nb
+        tz = D.timezone(D.timedelta(hours=-5))
+        vals = [D.datetime(2001, 12, 14, 21, 59, 43, u, tzinfo=(tz if u % 2 else None)) for u in range(k * per, (k + 1) * per)]
+        T.nontrivial += len(vals)
+        outs = {}
+        for dn, Dm in DUMPERS:
+            T.evaluations += len(vals)
+            try:
+                outs.setdefault(yaml.dump(vals, Dumper=Dm), []).append(dn)
+            except Exception as e:
+                T.violation('microseconds', 'dump-exception:' + type(e).__name__, {'block': k, 'dumper': dn}, detail='%s.dump raised %s(%s)' % (dn, type(e).__name__, str(e)[:200]))
+        for out, dns in outs.items():
+            for ln, Ld in LOADERS:
+                try:
+                    back = yaml.load(out, Loader=Ld)
+                except Exception as e:
+                    T.violation('microseconds', 'load-rejects:' + type(e).__name__, {'block': k, 'dumper': dns[0]}, detail='%s loader raised %s(%s)' % (ln, type(e).__name__, str(e)[:200]))
+                    continue
+                if len(back) != len(vals):
+                    T.violation('microseconds', 'value-differs', {'block': k, 'dumper': dns[0]}, detail='%d values written, %d read' % (len(vals), len(back)))
+                for v, b in zip(vals, back):
+                    if type(b) is not D.datetime or b != v or b.utcoffset() != v.utcoffset():
+                        T.violation('microseconds', 'value-differs', {'block': k, 'microsecond': v.microsecond, 'dumper': dns[0]},
+                                    detail='%s wrote %r in a list; %s loader read %r' % ('/'.join(dns), v, ln, b))
+        T.sample('microseconds', {'block': k, 'of': nb})
     elif kind == 'esckey':
         s = None
         for i, s in enumerate(U.escaped_keys()):
@@ -237,6 +267,8 @@ def run_job(job, T):
 
 
 def replay(sub, case, T):
+    if sub == 'microseconds':
+        return run_job(('usec', case['block'], 64), T)
     opts = dict(case.get('options') or {})
     if 'version' in opts and isinstance(opts['version'], list):
         opts['version'] = tuple(opts['version'])
